@@ -22,6 +22,8 @@ R39.d  parsec_argv_split_inter: every variable-index write into the fixed scratc
        it) is dominated by `length <= capacity - 1`, capacity read from the declared array type; the heap copy of a
        long piece is malloc(length + 1) with the terminator at [length]; both copies take exactly `length` bytes from
        the start of the piece; split / split_with_empty differ only in the include_empty flag (0 / 1).
+R39.e  parsec_argv_count (the "length" every other rule relies on): a counter from 0 and a cursor from the argument
+       advance together, once per iteration, while the cursor's entry is non-NULL; the counter is what is returned.
 Not decided: split / join round trips as values and command-line parsing.
 """
 from sa import aff
@@ -76,6 +78,8 @@ def run(ctx):
 
     rc = ctx.rule('R39.c', 'parsec_argv_join[_range]: allocation = sum(strlen + 1), terminator in its last byte, fill bounded by it', floor=8)
     check_join(ctx, u, rc)
+    re_ = ctx.rule('R39.e', 'parsec_argv_count: counter from 0 and cursor advance together while the entry is non-NULL; counter returned', floor=4)
+    check_count(ctx, u, re_)
     rd = ctx.rule('R39.d', 'parsec_argv_split_inter: scratch-buffer writes bounded by its declared size, heap copy sized length + 1, exact copies; wrappers', floor=8)
     check_split(ctx, u, rd)
 
@@ -346,3 +350,31 @@ def check_split(ctx, u, rd):
         cs = g.calls('parsec_argv_split_inter')
         ok = len(cs) == 1 and [a.s for a in cs[0].args[:2]] == [p_['n'] for p_ in g.params[:2]] and cs[0].args[2].cv == flag and len(g.returns()) == 1 and g.returns()[0].e is not None and g.returns()[0].e.k == 'call'
         rd.expect(ok, 'split:wrapper:%s' % fn, g.where(), '%s must return split_inter(string, delimiter, %d)' % (fn, flag), note='%s = split_inter(.., .., %d)' % (fn, flag))
+
+
+def check_count(ctx, u, re_):
+    f = u.func('parsec_argv_count'); ctx.functions_analysed.add(f.name)
+    arg = f.params[0]['n']
+    rets = [r for r in f.returns() if r.e is not None and r.e.cv is None]
+    if len(rets) != 1 or rets[0].e.k != 'ref':
+        raise AnalysisBroken('parsec_argv_count no longer returns one counter variable')
+    cn = rets[0].e.s
+    cur = [s_ for s_ in f.stores() if s_.op == '=' and s_.rhs is not None and s_.rhs.s == arg and s_.lhs.k == 'ref']
+    init = [s_ for s_ in f.stores(cn) if s_.op == '=' and s_.rhs is not None and s_.rhs.cv == 0]
+    ok = len(cur) == 1 and len(init) == 1 and not f.in_loop(init[0].block) and not f.in_loop(cur[0].block)
+    re_.expect(ok, 'count:init', (init or cur or rets)[0].loc, 'the counter must start at 0 and the cursor at the vector, outside the loop', note='counter = 0, cursor = argv before the loop')
+    if not ok:
+        return
+    cv = cur[0].lhs.s
+    conds = [(b, f.cond(b)) for b in f.blocks if f.cond(b) is not None and f.in_loop(b)]
+    okc = len(conds) == 1
+    if okc:
+        a, pol = cond_atom(conds[0][1])
+        okc = a.k == 'un' and a.op == '*' and a.ch[0].s == cv and pol
+    re_.expect(okc, 'count:while-entry', f.where(), 'the loop must continue exactly while the entry under the cursor is non-NULL', note='loop while *cursor')
+    incs = [s_ for s_ in f.stores(cn) if s_ is not init[0]]
+    adv = [s_ for s_ in f.stores(cv) if s_ is not cur[0]]
+    oki = len(incs) == 1 and len(adv) == 1 and incs[0].op == '++' and adv[0].op == '++' and incs[0].block == adv[0].block and bool(f.in_loop(incs[0].block))
+    re_.expect(oki, 'count:lockstep', (incs or adv or rets)[0].loc, 'counter and cursor must each advance by one, together, once per iteration', note='counter++ and cursor++ in the same step')
+    okr = okc and any(a.s == cond_atom(conds[0][1])[0].s and t != cond_atom(conds[0][1])[1] for a, t, _ in f.guards(rets[0].point))
+    re_.expect(okr, 'count:returns-counter', rets[0].loc, 'the counter must be returned when the NULL entry is reached', note='returns the counter at the NULL entry')
